@@ -982,9 +982,10 @@ class Module(ABC):
         assert len(self.base.trainable_params) == 0, "No trainables allowed!"
 
         assert self.base._module_type != "network", "This is not allowed for networks."
+        # `cell.set_ncomp()` is not allowed, `cell.branch(0).set_ncomp()` is (also if
+        # the cell has a single branch).
         assert not (
-            self.base._module_type == "cell"
-            and len(self._branches_in_view) == len(self.base._branches_in_view)
+            self.base._module_type == "cell" and not isinstance(self, View)
         ), "This is not allowed for cells."
         assert (
             len(self._branches_in_view) == 1
